@@ -96,6 +96,11 @@ func buildHandler(cfg *config.Config, lb *loadbalancer.LoadBalancer) (http.Handl
 	var handler http.Handler = lb
 	logger := logging.L()
 
+	// An identifier header that cannot be sent would turn every request into a 502
+	if err := logging.ValidateHeaderNames(cfg.Logging); err != nil {
+		return nil, err
+	}
+
 	// Apply plugin chain if enabled
 	if cfg.Plugins.Enabled && len(cfg.Plugins.Chain) > 0 {
 		chained, err := plugins.BuildChain(cfg.Plugins, handler)
